@@ -535,6 +535,218 @@ var Scenarios = []Scenario{
 		}
 		return out
 	}},
+	{Name: "F22-rejected-observer-registration", Props: []string{"C07", "C18", "C08"}, Run: func() []string {
+		var out []string
+		w := ecs.NewWorld(4)
+		m := ecs.NewMap1[u.P8](w)
+		e := m.NewEntity(&u.P8{V: 1})
+		fired := 0
+		obs := ecs.Observe(ecs.OnAddComponents).For(ecs.C[u.LateObs1]()).Do(func(ecs.Entity) { fired++ })
+		q := ecs.NewFilter1[u.P8](w).Query() // locks the world
+		nIDs, nObs := len(ecs.ComponentIDs(w)), w.Stats().Observers
+		if try(func() { obs.Register(w) }) == nil {
+			out = append(out, "registering an observer that names a new component type on a locked world did not panic")
+		}
+		if a, b := len(ecs.ComponentIDs(w)), w.Stats().Observers; a != nIDs || b != nObs {
+			out = append(out, fmt.Sprintf("the rejected registration changed component IDs %d->%d / observers %d->%d", nIDs, a, nObs, b))
+		}
+		q.Close()
+		// the rejected call had no effect: the same call succeeds now, the observer fires and can be unregistered
+		if p := try(func() { obs.Register(w) }); p != nil {
+			out = append(out, fmt.Sprintf("Register after the rejected attempt panics: %v", p))
+			return out
+		}
+		ecs.NewMap1[u.LateObs1](w).Add(e, &u.LateObs1{})
+		if fired != 1 {
+			out = append(out, fmt.Sprintf("observer fired %d times after registration, want 1", fired))
+		}
+		if p := try(func() { obs.Unregister(w) }); p != nil {
+			out = append(out, fmt.Sprintf("Unregister panics: %v", p))
+		}
+		return out
+	}},
+	{Name: "F23-relidx-255", Props: []string{"C18", "C03"}, Run: func() []string {
+		var out []string
+		if len(maxComponentIDs(ecs.NewWorld())) < 256 {
+			return nil // 64-type build: index 255 does not exist
+		}
+		w := ecs.NewWorld(4)
+		idA := ecs.ComponentID[manyRel[[0]byte]](w)
+		ids := []ecs.ID{idA}
+		for _, c := range manyPlain {
+			ids = append(ids, ecs.TypeID(w, c.Type()))
+		}
+		idB := ecs.ComponentID[manyRel[[1]byte]](w)
+		ids = append(ids, idB)
+		p1, p2 := w.NewEntity(), w.NewEntity()
+		w.Unsafe().NewEntityRel(ids, ecs.RelID(idA, p1), ecs.RelID(idB, p2))
+		with := append(append([]ecs.Comp{}, manyPlain...), ecs.C[manyRel[[1]byte]]())
+		f := ecs.NewFilter1[manyRel[[0]byte]](w).With(with...)
+		count := func(rel ...ecs.Relation) int {
+			q := f.Query(rel...)
+			n := q.Count()
+			q.Close()
+			return n
+		}
+		if n := count(ecs.Rel[manyRel[[1]byte]](p2)); n != 1 {
+			out = append(out, fmt.Sprintf("reference query by type counts %d, want 1", n))
+		}
+		if n := count(ecs.RelIdx(255, p2)); n != 1 {
+			out = append(out, fmt.Sprintf("RelIdx(255, target of the 256th filter component) counts %d entities, want 1", n))
+		}
+		if n := count(ecs.RelIdx(255, p1)); n != 0 {
+			out = append(out, fmt.Sprintf("RelIdx(255, another entity) counts %d entities, want 0", n))
+		}
+		return out
+	}},
+	{Name: "F24-filter-with-256-relation-targets", Props: []string{"C18", "C03", "C05"}, Run: func() []string {
+		var out []string
+		if len(maxComponentIDs(ecs.NewWorld())) < 256 {
+			return nil
+		}
+		w := ecs.NewWorld(4)
+		ids := []ecs.ID{ecs.ComponentID[manyRel[[0]byte]](w)}
+		for _, c := range manyRels {
+			ids = append(ids, ecs.TypeID(w, c.Type()))
+		}
+		p1, p2 := w.NewEntity(), w.NewEntity()
+		rels := func(t ecs.Entity) []ecs.Relation {
+			r := make([]ecs.Relation, len(ids))
+			for i, id := range ids {
+				r[i] = ecs.RelID(id, t)
+			}
+			return r
+		}
+		e1 := w.Unsafe().NewEntityRel(ids, rels(p1)...)
+		e2 := w.Unsafe().NewEntityRel(ids, rels(p2)...)
+		collect := func(f *ecs.Filter1[manyRel[[0]byte]]) []ecs.Entity {
+			var got []ecs.Entity
+			q := f.Query()
+			for q.Next() {
+				got = append(got, q.Entity())
+			}
+			return got
+		}
+		if got := collect(ecs.NewFilter1[manyRel[[0]byte]](w).With(manyRels...).Relations(rels(p1)[:255]...)); len(got) != 1 || got[0] != e1 {
+			out = append(out, fmt.Sprintf("filter with 255 fixed relation targets yields %v, want [%v]", got, e1))
+		}
+		if got := collect(ecs.NewFilter1[manyRel[[0]byte]](w).With(manyRels...).Relations(rels(p1)...)); len(got) != 1 || got[0] != e1 {
+			out = append(out, fmt.Sprintf("filter with 256 fixed relation targets yields %v, want [%v]", got, e1))
+		}
+		fc := ecs.NewFilter1[manyRel[[0]byte]](w).With(manyRels...).Relations(rels(p2)...).Register()
+		if got := collect(fc); len(got) != 1 || got[0] != e2 {
+			out = append(out, fmt.Sprintf("registered filter with 256 fixed relation targets yields %v, want [%v]", got, e2))
+		}
+		fc.Unregister()
+		return out
+	}},
+	{Name: "F25-target-of-a-table-created-by-a-rejected-batch-call", Props: []string{"C10", "C04"}, Run: func() []string {
+		var out []string
+		{
+			w := ecs.NewWorld(4)
+			pm := ecs.NewMap1[u.P8](w)
+			both := ecs.NewMap2[u.P8, u.R0](w)
+			rm := ecs.NewMap[u.R0](w)
+			U := w.Unsafe()
+			rid := ecs.ComponentID[u.R0](w)
+			target := w.NewEntity()
+			e1 := pm.NewEntity(&u.P8{V: 1})
+			both.NewEntity(&u.P8{V: 2}, &u.R0{}, ecs.Rel[u.R0](ecs.Entity{}))
+			// rejected: the second selected entity already has R0 (the destination table of the first one exists by then)
+			if try(func() { rm.AddBatch(ecs.NewFilter1[u.P8](w).Batch(), &u.R0{}, target) }) == nil {
+				out = append(out, "AddBatch of a component an entity already has did not panic")
+			}
+			w.RemoveEntity(target)
+			if try(func() { U.AddRel(e1, []ecs.ID{rid}, ecs.RelID(rid, target)) }) == nil {
+				out = append(out, fmt.Sprintf("after a rejected AddBatch, Unsafe.AddRel accepts the removed entity %v as relation target", target))
+			}
+		}
+		{
+			w := ecs.NewWorld(4)
+			pm := ecs.NewMap1[u.P8](w)
+			both := ecs.NewMap2[u.P8, u.R0](w)
+			rm := ecs.NewMap[u.R0](w)
+			U := w.Unsafe()
+			rid := ecs.ComponentID[u.R0](w)
+			target := w.NewEntity()
+			e1 := both.NewEntity(&u.P8{V: 2}, &u.R0{}, ecs.Rel[u.R0](ecs.Entity{}))
+			pm.NewEntity(&u.P8{V: 1})
+			if try(func() { rm.SetRelationBatch(ecs.NewFilter1[u.P8](w).Batch(), target, nil) }) == nil {
+				out = append(out, "SetRelationBatch over an entity without the relation component did not panic")
+			}
+			w.RemoveEntity(target)
+			if try(func() { U.SetRelations(e1, ecs.RelID(rid, target)) }) == nil {
+				out = append(out, fmt.Sprintf("after a rejected SetRelationBatch, Unsafe.SetRelations accepts the removed entity %v as relation target", target))
+			}
+		}
+		return out
+	}},
+	{Name: "F26-foreign-relation-component-hides-omitted-target", Props: []string{"C10", "C04"}, Run: func() []string {
+		var out []string
+		w := ecs.NewWorld(4)
+		U := w.Unsafe()
+		a, b, c := ecs.ComponentID[u.R0](w), ecs.ComponentID[u.R1](w), ecs.ComponentID[u.R2](w)
+		parent, friend := w.NewEntity(), w.NewEntity()
+		both := []ecs.ID{a, b}
+		e := w.NewEntity()
+		if try(func() { U.AddRel(e, both, ecs.RelID(a, parent), ecs.RelID(c, parent)) }) == nil {
+			out = append(out, "no table yet: a target for a relation outside the archetype instead of the required one was accepted")
+		}
+		U.NewEntityRel(both, ecs.RelID(a, parent), ecs.RelID(b, friend))
+		if try(func() { U.AddRel(e, both, ecs.RelID(a, parent), ecs.RelID(c, parent)) }) == nil {
+			out = append(out, fmt.Sprintf("Unsafe.AddRel: the omitted target for R1 was not rejected; the entity got R1 -> %v", U.GetRelation(e, b)))
+		}
+		if try(func() { U.NewEntityRel(both, ecs.RelID(a, parent), ecs.RelID(c, parent)) }) == nil {
+			out = append(out, "Unsafe.NewEntityRel: the omitted target for R1 was not rejected")
+		}
+		return out
+	}},
+	{Name: "F27-emit-for-a-removed-entity", Props: []string{"C10"}, Run: func() []string {
+		var out []string
+		w := ecs.NewWorld(4)
+		var reg ecs.EventRegistry
+		ev := reg.NewEventType()
+		e := w.NewEntity()
+		w.RemoveEntity(e)
+		if try(func() { w.Event(ev).Emit(e) }) == nil {
+			out = append(out, "Event.Emit for a removed entity did not panic (no observer registered)")
+		}
+		w.NewEntity() // recycles the ID
+		if try(func() { w.Event(ev).Emit(e) }) == nil {
+			out = append(out, "Event.Emit for a stale handle with a recycled ID did not panic (no observer registered)")
+		}
+		if p := try(func() { w.Event(ev).Emit(ecs.Entity{}) }); p != nil {
+			out = append(out, fmt.Sprintf("Event.Emit for the zero entity panicked: %v", p))
+		}
+		return out
+	}},
+	{Name: "K1-loaded-world-reports-pre-reset-handles-alive", Props: []string{"C17"}, Run: func() []string {
+		// KNOWN FINDING (not repaired, see DESIGN section 5): World.Alive reads the pool through a raw pointer without
+		// bounds check; LoadEntities installs a pool of exactly the dump's length, so for handles the source world issued
+		// before a Reset (dead in the source) with IDs beyond that length the loaded world reads past its pool.
+		var out []string
+		src := ecs.NewWorld(4)
+		var old []ecs.Entity
+		for i := 0; i < 1000; i++ {
+			old = append(old, src.NewEntity())
+		}
+		src.Reset()
+		src.NewEntity()
+		src.NewEntity()
+		dump := src.Unsafe().DumpEntities()
+		dst := ecs.NewWorld(4)
+		dst.Unsafe().LoadEntities(&dump)
+		n := 0
+		for _, h := range old[2:] {
+			if src.Alive(h) != dst.Alive(h) {
+				n++
+			}
+		}
+		if n > 0 {
+			out = append(out, fmt.Sprintf("%d of %d handles issued by the source world before its Reset are dead in the source and alive in the loaded world", n, len(old)-2))
+		}
+		return out
+	}},
 }
 
 // maxComponentIDs registers filler component types until the registry is full and returns all IDs.
